@@ -17,7 +17,7 @@ BOUNDS = (
     "(positive noise, peaked, signed with positive total, with NaN/inf) x 3 mask fractions vs pixel-loop "
     "oracle, tol 1e-10*sum|d|/|sum d|.  centroid_quadratic: exact quadratics c0-a(x-x0)^2-b(y-y0)^2-c(x-x0)(y-y0) "
     "with 4 coefficient sets, vertex lattice (1.0, 1.3, 1.5, centre, centre+0.37, n-2.4, n-2) per axis, 9 shapes, "
-    "fit_boxsize in {3,5,7,(3,5),(5,3)}, keyword modes {none, xpeak/ypeak at the peak pixel, fractional "
+    "fit_boxsize in {3,5,7,(3,5),(5,3)} incl. boxes larger than an axis of 3x9 / 9x3 / 4x7 data, keyword modes {none, xpeak/ypeak at the peak pixel, fractional "
     "xpeak/ypeak, displaced xpeak/ypeak + search_boxsize 3/5}, 0-2 masked pixels (junk values) and an unmasked NaN; "
     "tol 1e-9 (design matrices with smallest singular value < 1e-6*largest are skipped).  Symmetric sources: f + "
     "point-mirror(f) on 10 centred shapes (odd/even) and sources 1-3 px from the border made symmetric by masking "
@@ -322,7 +322,8 @@ def check_quadratic(rec, shape, coef, vertex, fit, mode, nmask, seed, tag):
 
 def part_quadratic(ctx):
     rec = Rec(ctx)
-    shapes = [(3, 3), (4, 4), (5, 5), (5, 6), (6, 5), (7, 7), (8, 8), (7, 10), (9, 9)]
+    shapes = [(3, 3), (4, 4), (5, 5), (5, 6), (6, 5), (7, 7), (8, 8), (7, 10), (9, 9),
+              (3, 9), (9, 3), (4, 7)]
     coefs = [(1.0, 1.0, 0.0), (0.5, 2.0, 0.3), (1.2, 0.7, -0.9), (3.0, 0.2, 0.5)]
     modes = ['none', 'peak', 'peak-frac', 'search3', 'search5', 'off-peak']
     n = 0
@@ -332,7 +333,10 @@ def part_quadratic(ctx):
         def lat(m):
             vals = [1.0, 1.3, 1.5, (m - 1) / 2.0, (m - 1) / 2.0 + 0.37, m - 2.4, m - 2.0]
             return sorted({round(v, 6) for v in vals if 0.55 < v < m - 1.55})
-        fits = [f for f in (3, 5, 7, (3, 5), (5, 3)) if _pair(f)[0] <= ny and _pair(f)[1] <= nx]
+        # a box larger than the image along an axis uses the whole axis (each axis clipped by its
+        # own length: on non-square data the other axis keeps the requested size)
+        fits = [f for f in (3, 5, 7, (3, 5), (5, 3))
+                if min(_pair(f)[0], ny) * min(_pair(f)[1], nx) >= 6]
         for ci, coef in enumerate(coefs):
             for x0 in lat(nx):
                 for y0 in lat(ny):
